@@ -61,7 +61,15 @@ def text_of(tok, variant=0):
 
 
 def concretise(toks, variant=0, gap=' '):
-    return '=' + gap + gap.join(text_of(t, variant + i) for i, t in enumerate(toks))
+    out = []
+    for i, t in enumerate(toks):
+        x = text_of(t, variant + i)
+        if x == 'TRUE' and i + 1 < len(toks) and toks[i + 1] == 'BracketStartToken':
+            # "TRUE (" opens the CALL FORM of the truth value - one literal token of its own, not a literal followed by a bracket:
+            # a literal that is followed by a bracket is spelled as a number
+            x = str(7000 + variant + i)
+        out.append(x)
+    return '=' + gap + gap.join(out)
 
 
 def lex_classes(text):
